@@ -43,11 +43,12 @@ pub struct Profile {
     pub mmap_pct: u64,
     pub both_backends: bool,
     pub clock_back_pct: u64,
+    pub fault_pct: u64,     // share of appends/batches preceded by an injected I/O fault
 }
 
 pub fn profile(name: &str) -> Profile {
     let base = Profile { name: "seq", n_quick: 400, n_thorough: 6000, ops: (12, 60), topics: 2, restart_pct: 0, reject_pct: 0,
-        peek_pct: 15, offset_pct: 0, multi_unit_pct: 3, marks_pct: 0, alo_pct: 30, mmap_pct: 40, both_backends: false, clock_back_pct: 0 };
+        peek_pct: 15, offset_pct: 0, multi_unit_pct: 3, marks_pct: 0, alo_pct: 30, mmap_pct: 40, both_backends: false, clock_back_pct: 0, fault_pct: 0 };
     match name {
         "seq" => base,
         "peek" => Profile { name: "peek", peek_pct: 45, offset_pct: 35, ..base },
@@ -56,6 +57,7 @@ pub fn profile(name: &str) -> Profile {
         "restart" => Profile { name: "restart", restart_pct: 8, alo_pct: 0, multi_unit_pct: 0, ..base },
         "restart_any" => Profile { name: "restart_any", restart_pct: 8, reject_pct: 5, alo_pct: 30, multi_unit_pct: 6, clock_back_pct: 15, ..base },
         "backends" => Profile { name: "backends", restart_pct: 4, reject_pct: 6, peek_pct: 25, offset_pct: 20, multi_unit_pct: 5, both_backends: true, ..base },
+        "faults" => Profile { name: "faults", fault_pct: 22, reject_pct: 6, restart_pct: 3, multi_unit_pct: 2, ..base },
         "marks" => Profile { name: "marks", marks_pct: 45, restart_pct: 10, ops: (6, 30), ..base },
         _ => panic!("unknown profile {}", name),
     }
@@ -197,7 +199,15 @@ pub fn gen_program(r: &mut Rng, g: &Geo, p: &Profile, backend: &str, seed_tag: u
         let writing = if write_heavy { k < nops * 2 / 3 && c < 85 } else { c < 50 };
         if writing {
             let st = &mut topics[ti];
-            if r.chance(30) {
+            let faulty = r.chance(p.fault_pct);
+            let is_batch = r.chance(if faulty { 70 } else { 30 });
+            if faulty {
+                // entry-write failure at position 0..=5 (a position beyond the batch never fires), or,
+                // on the io_uring path only, a failed submission
+                if backend == "fd" && r.chance(15) { lines.push("fault 7 0".into()); }
+                else { lines.push(format!("fault 0 {}", if is_batch { r.below(6) } else { r.below(2) })); }
+            }
+            if is_batch {
                 let n = 1 + r.below(g.cap.min(6));
                 let mut items = Vec::new();
                 let mut total = 0;
